@@ -79,7 +79,20 @@ def dealias(fn_node):
             if isinstance(n.ctx, ast.Load) and n.id in alias:
                 return ast.copy_location(copy.deepcopy(alias[n.id]), n)
             return n
-    return R().visit(fn_node) if alias else fn_node
+
+        def visit_Attribute(self, n):
+            # self.<table>.setdefault(k, []).append(x): the receiver is the rule list of key k
+            self.generic_visit(n)
+            v = n.value
+            if isinstance(v, ast.Call) and isinstance(v.func, ast.Attribute) and v.func.attr == 'setdefault' and len(v.args) == 2 \
+                    and isinstance(v.args[1], ast.List) and not v.args[1].elts:
+                tt = table_of(v.func.value)
+                if tt and tt[0] in TABLES and tt[1] is None:
+                    n.value = ast.copy_location(ast.Subscript(value=v.func.value, slice=v.args[0], ctx=ast.Load()), v)
+            return n
+    chained = any(isinstance(n, ast.Attribute) and isinstance(n.value, ast.Call) and isinstance(n.value.func, ast.Attribute)
+                  and n.value.func.attr == 'setdefault' for n in ast.walk(fn_node))
+    return R().visit(fn_node) if (alias or chained) else fn_node
 
 
 def _is_eq_membership(text, el, lst):
